@@ -41,16 +41,19 @@ type xMatch []struct {
 	vm    xVM
 }
 type xStep struct {
-	kind    string
-	pairs   []struct{ dst int; parts []tmplPart } // add
-	keys    []int                                  // del
+	kind  string
+	pairs []struct {
+		dst   int
+		parts []tmplPart
+	} // add
+	keys    []int // del
 	key     int
 	dest    int
 	mapping [][2]string
 	dflt    string
 	match   xMatch
-	steps   []xStep   // if.then / block.steps
-	cases   []xCase   // switch
+	steps   []xStep // if.then / block.steps
+	cases   []xCase // switch
 	rate    int
 	id      int
 	pattern string
